@@ -54,7 +54,7 @@ def gen_cases(ctx):
     """[(cfg, entry, start)] — the property's grid first, then PRNG-drawn extras."""
     cases = [(c, e, s) for c in CONFIGS for e in ENTRIES for s in STARTS]
     rnd = random.Random(ctx.seed)
-    n_extra = 48 if not ctx.thorough() else 400
+    n_extra = 48 if not ctx.thorough() else 6000
     for _ in range(n_extra):
         k = rnd.randrange(5)
         if k == 0:
